@@ -177,6 +177,8 @@ class Builder:
     def build(self, cls, spec, extras=()):
         obj = cls()
         self.apply(obj, cls, spec)
+        if "+extras" in spec:       # undeclared AVPs inside a grouped AVP (containers offering additional_avps)
+            extras = tuple(extras) + tuple(spec["+extras"][1])
         for raw in extras:
             a = self.A.Avp.from_bytes(raw)
             if hasattr(obj, "append_avp"):
@@ -190,6 +192,8 @@ class Builder:
         for d in defs_of(cls):
             dmap.setdefault(d.attr_name, d)
         for attr, (k, v) in spec.items():
+            if attr == "+extras":
+                continue
             d = dmap[attr]
             if k == "s" or k == "l":
                 setattr(obj, attr, v if k == "s" else list(v))
@@ -225,6 +229,8 @@ class Builder:
             else:
                 for s in v:
                     out.append(rc.enc_avp(d.avp_code, b"".join(self.ref_avps(d.type_class, s)), fl, d.vendor_id))
+        if "+extras" in spec:
+            out += list(spec["+extras"][1])
         return out
 
     def enc(self, tn, v):
@@ -268,6 +274,13 @@ class Builder:
                     r = self.same(g, d.type_class, s, f"{path}{attr}[{i}].")
                     if r:
                         return r
+        if path and hasattr(obj, "additional_avps"):
+            # undeclared AVPs of a decoded grouped AVP: exactly the ones on the wire, in particular none left over from
+            # another decoded instance of the same container class
+            want = list(spec.get("+extras", ("x", []))[1])
+            got = [a.as_bytes() for a in (obj.additional_avps or [])]
+            if got != want:
+                return f"{path}additional_avps: {len(got)} undeclared AVPs decoded ({[x.hex()[:24] for x in got]}), {len(want)} on the wire"
         return None
 
     def val_eq(self, tn, got, want):
@@ -404,6 +417,26 @@ def work_class(args):
         if collide:
             cases.append(("all+colliding-extras", alls, tuple(collide)))
             cases.append(("none+colliding-extras", {}, tuple(collide)))
+    # undeclared AVPs inside grouped AVPs whose container offers additional_avps: three messages in a row with different extras
+    # (a decoded container must carry exactly its own), then the same attribute without any
+    if is_message:
+        for d in defs:
+            if d.type_class is None or not any(f.name == "additional_avps" for f in dataclasses.fields(d.type_class)):
+                continue
+            for rnd, ex in enumerate(([rc.enc_avp(9_000_081, b"one", 0x20, 0)], [rc.u32(9_000_082, 2, M, 4242), rc.enc_avp(9_000_083, b"", 0, 0)], [])):
+                sp = b.spec_for(cls, d, 2, rnd, 2)
+                if sp[0] == "c":
+                    sub = dict(sp[1])
+                    if ex:
+                        sub["+extras"] = ("x", list(ex))
+                    sp = ("c", sub)
+                else:
+                    subs = [dict(x) for x in sp[1]]
+                    for k, sub in enumerate(subs):
+                        if ex:
+                            sub["+extras"] = ("x", list(ex[k:]) + [rc.u32(9_000_090 + k, k, 0, 0)])
+                    sp = ("cl", subs)
+                cases.append((f"nested-extras{rnd}:{d.attr_name}", {d.attr_name: sp}, ()))
     if defs:
         for j in sorted({0, len(defs) // 2, len(defs) - 1}):
             s = dict(alls)
